@@ -222,6 +222,74 @@ impl<'tcx> Interp<'tcx> {
         }
     }
 
+    /// LIN tier: the product of two values with linear forms is a form over PRODUCT ATOMS
+    /// (x_i * y_j named and interned), exact when both forms are exact, else modulo the common modulus.
+    fn bilinear_product(&mut self, st: &mut State, x: &IntV, y: &IntV, res: Val) -> Val {
+        let (Some(lx), Some(ly)) = (x.lin.clone(), y.lin.clone()) else { return res };
+        if lx.terms.is_empty() || ly.terms.is_empty() || lx.terms.len() * ly.terms.len() > 64 {
+            return res;
+        }
+        let m = match (lx.m, ly.m) {
+            (0, 0) => 0,
+            (a, 0) | (0, a) => a,
+            (a, b) if a == b => a,
+            _ => return res,
+        };
+        let red = |v: i128| if m > 0 { v.rem_euclid(m) } else { v };
+        let mut terms: Vec<(AtomId, i128)> = Vec::new();
+        for (a, ca) in lx.terms.iter() {
+            for (b, cb) in ly.terms.iter() {
+                let key = if a <= b { (*a, *b) } else { (*b, *a) };
+                let p = match self.prod_atoms.get(&key) {
+                    Some(p) => *p,
+                    None => {
+                        let (alo, ahi) = st.atoms.get(*a as usize).cloned().unwrap_or((i128::MIN, i128::MAX));
+                        let (blo, bhi) = st.atoms.get(*b as usize).cloned().unwrap_or((i128::MIN, i128::MAX));
+                        let c = [alo.saturating_mul(blo), alo.saturating_mul(bhi), ahi.saturating_mul(blo), ahi.saturating_mul(bhi)];
+                        let p = self.fresh_atom(st, *c.iter().min().unwrap(), *c.iter().max().unwrap(), None);
+                        let na = self.atom_names.get(a).cloned().unwrap_or_else(|| format!("a{}", a));
+                        let nb = self.atom_names.get(b).cloned().unwrap_or_else(|| format!("a{}", b));
+                        self.atom_names.insert(p, format!("({}*{})", na, nb));
+                        self.prod_atoms.insert(key, p);
+                        p
+                    }
+                };
+                let Some(c) = red(*ca).checked_mul(red(*cb)) else { return res };
+                terms.push((p, red(c)));
+            }
+        }
+        // cross terms with the constants
+        for (a, ca) in lx.terms.iter() {
+            if ly.d != 0 {
+                let Some(c) = red(*ca).checked_mul(red(ly.d)) else { return res };
+                terms.push((*a, red(c)));
+            }
+        }
+        for (b, cb) in ly.terms.iter() {
+            if lx.d != 0 {
+                let Some(c) = red(*cb).checked_mul(red(lx.d)) else { return res };
+                terms.push((*b, red(c)));
+            }
+        }
+        let Some(d) = red(lx.d).checked_mul(red(ly.d)) else { return res };
+        let Some(l) = Lin::from_parts(m, red(d), terms) else { return res };
+        let attach = |v: &Val| -> Val {
+            match v {
+                Val::Int(i) if i.lin.is_none() || i.lin.as_ref().map(|q| q.terms.is_empty() && q.m != 0).unwrap_or(false) => {
+                    let mut j = i.clone();
+                    j.lin = Some(Rc::new(l.clone()));
+                    Val::Int(j)
+                }
+                other => other.clone(),
+            }
+        };
+        match &res {
+            Val::Int(_) => attach(&res),
+            Val::Tuple(t) if t.len() == 2 => Val::Tuple(Rc::new(vec![attach(&t[0]), t[1].clone()])),
+            _ => res,
+        }
+    }
+
     // ---- rvalues --------------------------------------------------------------------------
 
     fn int_binop(&mut self, st: &State, op: BinOp, a: &IntV, b: &IntV, rty: Ty<'tcx>) -> Val {
@@ -365,7 +433,10 @@ impl<'tcx> Interp<'tcx> {
                 let rty = rv.ty(body, self.tcx);
                 match (&a, &b) {
                     (Val::Int(x), Val::Int(y)) => {
-                        let res = self.int_binop(st, *op, x, y, rty);
+                        let mut res = self.int_binop(st, *op, x, y, rty);
+                        if self.lin_tier && matches!(op, BinOp::Mul | BinOp::MulUnchecked | BinOp::MulWithOverflow) {
+                            res = self.bilinear_product(st, x, y, res);
+                        }
                         // record comparison definitions for later branch refinement
                         if dest.projection.is_empty() {
                             let c = match op {
